@@ -1644,6 +1644,35 @@ func (an *shapeAn) checkSlice(sf *symFn, x *ssa.Slice, pc *Sym, chain string) {
 				return
 			}
 		}
+		// bounds that are plain integer arithmetic over lengths, parameters and package variables (no call results): decided by
+		// valuation — every candidate value of the integers, the negative ones included
+		arith := hi != nil
+		for _, bnd := range []*Sym{lo, hi} {
+			if bnd == nil {
+				continue
+			}
+			if has, _ := bnd.hasUnknown(); has {
+				arith = false
+			}
+			bnd.walk(func(t *Sym) {
+				if t.Op == "call" || t.Op == "pred" || t.Op == "elem" && t.Kind != "int" && false {
+					arith = false
+				}
+			})
+		}
+		if arith {
+			ln := &Sym{Op: "len", Kids: []*Sym{base}, Kind: "int"}
+			inRange := sAnd(sBin("<=", sInt(0), lo), sAnd(sBin("<=", lo, hi), sBin("<=", hi, ln)))
+			res := compareSyms(sOr(sNot(pc), inRange), sBool(true), "bool")
+			if !res.Equal {
+				an.ob("E2.slice-bound", construct, Violated, "slice bounds can be out of range: with "+clip(res.Witness, 200)+" the bounds are not inside 0 <= low <= high <= len on the path ["+chain+"]", pos, false)
+				return
+			}
+			if !res.Truncated {
+				an.ob("E2.slice-bound", construct, Discharged, "bounds hold for every candidate value of the integers they are computed from", pos, false)
+				return
+			}
+		}
 		// bounds computed from other values (indexes returned by strings.Index…): out of the interval fragment
 		an.ob("E2.slice-bound", construct, Note, "bounds are not constants or len-relative; not decided", pos, false)
 		return
